@@ -31,6 +31,10 @@ def load_groups():
             g = tomllib.load(f)
         g["_path"] = p
         gs.append(g)
+    only = os.environ.get("VERIF_KANI_GROUPS")
+    if only:
+        keep = set(only.split(","))
+        gs = [g for g in gs if g["group"] in keep]
     return gs
 
 
@@ -174,12 +178,12 @@ def run_for(prop, tier, scratch, outdir, only_harnesses=None, playback=False):
                 hs.append((g, h))
         if not hs:
             continue
-        tdir = os.path.join(CACHE, "kani-target-" + crate)
+        tdir = os.path.join(os.environ.get("VERIF_KANI_TARGET") or CACHE, "kani-target-" + crate)
         os.makedirs(tdir, exist_ok=True)
         env = dict(os.environ)
         env["CARGO_NET_OFFLINE"] = "true"
         tmo = max(h.get("timeout", 300 if tier == "quick" else 1800) for _, h in hs)
-        cmd = ["cargo", "kani", "-p", crate, "--target-dir", tdir, "-Z", "function-contracts", "-Z", "stubbing", "-Z", "unstable-options", "--harness-timeout", f"{tmo}s", "--output-format", "terse", "--exact", "-j", str(min(12, max(1, len(hs))))]
+        cmd = ["cargo", "kani", "-p", crate, "--target-dir", tdir, "-Z", "function-contracts", "-Z", "stubbing", "-Z", "unstable-options", "--harness-timeout", f"{tmo}s", "--output-format", "terse", "--exact", "-j", str(min(int(os.environ.get("VERIF_KANI_JOBS", "12")), max(1, len(hs))))]
         feats = next((g.get("features") for g in gs if g.get("features")), None)
         if feats:
             cmd += ["--features", feats]
